@@ -698,7 +698,7 @@ class TSQLParser(parser.Parser):
         table = isinstance(into, exp.Into) and into.find(exp.Table)
         if isinstance(table, exp.Table):
             table_identifier = table.this
-            if table_identifier.args.get("temporary"):
+            if isinstance(table_identifier, exp.Expr) and table_identifier.args.get("temporary"):
                 # Promote the temporary property from the Identifier to the Into expression
                 t.cast(exp.Into, into).set("temporary", True)
 
